@@ -250,3 +250,24 @@ class fill_rejects:
 
     def ensures(result, declared, name):
         return {'an illegal element value is reported, with or without declared annotations': raised(result, errors.IllegalElementValue)}
+
+
+@contract('CircuitCalculator.SimpleSimulation.schematic.fill', props=['C15', 'C20', 'C19'], name='fill_does_not_consume_the_description',
+          bounded='one declared resistor with direction and length, stubbed solution object')
+class fill_keeps_description:
+    """The declared elements are read, never consumed: the same description can be used again and gives the same drawing."""
+    def inputs(g):
+        return dict(elements=[{'type': 'resistor', 'name': g.label('name'), 'R': g.pos('R'), 'direction': g.choice('direction', ['right', 'up']), 'length': g.pos('length')}])
+
+    def call(f, elements):
+        first, second = StubSchematic(), StubSchematic()
+        f(first, elements, 7, False, StubDefinition([], [], [], [], lambda schematic: StubSolution([])))
+        f(second, elements, 7, False, StubDefinition([], [], [], [], lambda schematic: StubSolution([])))
+        return (first.added, second.added)
+
+    def ensures(result, elements):
+        first, second = result
+        e = elements[0]
+        return {'one element placed per use': len(first) == 1 and len(second) == 1,
+                'second use builds the same symbol': second[0].name == first[0].name and eq(second[0].R, first[0].R) and first[0].name == e['name'] and eq(first[0].R, e['R']),
+                'description still complete': 'direction' in e and 'length' in e and 'type' in e and 'name' in e}
